@@ -17,8 +17,8 @@ CLAIMS = {
          "Partial coverage as stated; spec functions come from README/wire.go/protobuf guide, not from the code."),
  "C01": ("proof", "For every leaf codec the decoder is proved to invert the specified encoding for every value (Read of the specified body returns the value and consumes exactly the body; int truncation per instantiation; float bit patterns; strings/bytes by content). Composite round trips rest on these plus the composite contracts not yet written.",
          "Partial: leaves only; composites by the (unmechanised) induction of DESIGN.md section 1."),
- "C04": ("proof", "No-panic (every index, slice, division, allocation size), termination (a decreases measure on every loop), result sanity (err == nil implies 0 <= n <= len(data)) and an allocation bound (elements <= len(data)) are proved for the decoders reachable from Unmarshal for non-JSON types: plenccore readers and Skip, all leaf codec Reads, PointerWrapper, the four slice wrappers, StructCodec.Read, MapCodec.Read/readMapEntry/readTagAndLength, ProtoMapCodec.Read, TimeCodec/TimeCompatCodec/BQTimestampCodec Read - for arbitrary input bytes and abstract component codecs obeying the interface contract. Seven genuine defects found this way were repaired by fix: commits (known_findings.json). JSON codecs and the Descriptor walker are not yet under contract.",
-         "Element-address arithmetic through unsafe pointers is not bounds-checked (only Go-level slice/index expressions are); header/contents separation is assumed via `keeps`."),
+ "C04": ("proof", "No-panic (every index, slice, division, allocation size), termination (a decreases measure on every loop), result sanity (err == nil implies 0 <= n <= len(data)) and an allocation bound (elements <= len(data)) are proved for the decoders reachable from Unmarshal for non-JSON types: plenccore readers and Skip, all leaf codec Reads, PointerWrapper, the four slice wrappers, StructCodec.Read, MapCodec.Read/readMapEntry/readTagAndLength, ProtoMapCodec.Read, TimeCodec/TimeCompatCodec/BQTimestampCodec Read, the JSON-any codecs (JSONMapCodec/JSONArrayCodec.Read, readJSONKV) and the Descriptor walker (read, readAsSlice, readAsStruct, readAsMapEntry, readAsJSON, readJSONObjectKV) - for arbitrary input bytes and abstract component codecs obeying the interface contract. Nine genuine defects found this way were repaired by fix: commits (known_findings.json).",
+         "Element-address arithmetic through unsafe pointers is not bounds-checked (only Go-level slice/index expressions are); header/contents separation is assumed via `keeps`; termination of the mutual recursion Descriptor.read <-> readAs* is by descriptor depth / shrinking data and is not mechanised; map contents are abstract."),
  "C11": ("proof", "Write side: every leaf Append is proved to be `old(data) ++ bytes` (prefix preserved, nothing written below len, result region is the caller's buffer or fresh, heap not assigned). Read side: leaf Reads assign only the target bytes (frame proved) and every pointer stored into the target is proved not to point into the input buffer (region taint), so string/bytes results are fresh copies. Interned strings, JSON codecs and Marshal/Unmarshal wrappers not yet under contract.",
          "Region reasoning is by the generator's provenance tags (an obligation per store)."),
  "C09": ("proof", "Omit contracts of the leaf codecs (zero value omitted) and PointerWrapper (omitted iff nil; Read leaves a non-nil pointer and re-uses an existing pointee) are proved, and each leaf Descriptor is proved to have ExplicitPresence false. null.* codecs and map entries not yet under contract.",
